@@ -168,4 +168,21 @@ PROPS = {
                         "reading of the property, incl. DESIGN §7 readings (oversized: E, plus Z only for Query; unknown type: E Z). The "
                         "ReadyForQuery-count statement is proved per message, not yet lifted to whole histories.",
              technique="Lean 4 proof (case analysis of handlers + C05 induction) + differential correspondence with reference-machine oracle"),
+    "C07": P("Pw.Props.C07",
+             ["Pw.Props.C07.C07_store_refines", "Pw.Props.C07.C07_remove_refines", "Pw.Props.C07.lookup_store_same",
+              "Pw.Props.C07.lookup_store_other", "Pw.Props.C07.lookup_remove_same", "Pw.Props.C07.lookup_remove_other",
+              "Pw.Props.C07.C07_parse", "Pw.Props.C07.C07_bind", "Pw.Props.C07.C07_execute"],
+             [("names", 3000, 200000)], ["Startup"],
+             design_ref="§7 C07",
+             level_text="Lean theorems: the statement and portal maps refine partial functions name -> definition (store replaces exactly "
+                        "that name, remove makes exactly that name unresolvable, all other names untouched - for all maps and names, the "
+                        "empty name included); Parse never touches a portal; Bind snapshots the statement VALUE currently stored under the "
+                        "name together with this Bind's parameters and result formats and leaves all other portals alone; Execute runs "
+                        "exactly the bound statement with the bound parameters. Per-connection isolation holds by construction of the "
+                        "model (the maps are components of one connection's state) and is tied to the code by the pinned serve() phase "
+                        "order (srv.Statements()/srv.Portals() per connection) and by C15's concurrent campaign. Tie: differential "
+                        "campaign of histories (<= 33 ops over names {'', a, b}); the generator keeps its own abstract maps (NameSpec) "
+                        "and the oracle compares which statement function actually ran with which parameters, and every Describe reply.",
+             level_note="Trusted: Lean kernel; custom StatementCache/PortalCache implementations are out of scope (default caches only).",
+             technique="Lean 4 proof (association-list refinement + handler case analysis) + differential correspondence with NameSpec oracle"),
 }
